@@ -54,8 +54,8 @@ example :
     countKind [⟨"a.rs", [⟨"f", 7, [⟨.unwrap, "x . unwrap ( )", "none", "", 1, 1⟩]⟩]⟩] .panic = 0 := by decide
 
 /-- **Only the listed findings are conceded to fire**: every `knownFinding` key that occurs anywhere in the table
-(hence every key that discharges a site) is one of `allowedFindingKeys` — seven keys: six malformed-Hall-symbol
-parser panics and the magnetic closure map.  Every other record claims that its site cannot fire. -/
+(hence every key that discharges a site) is one of `allowedFindingKeys` — eight keys: six malformed-Hall-symbol
+parser panics, the magnetic closure map and the division by the number of operations without time reversal.  Every other record claims that its site cannot fire. -/
 theorem known_findings_bounded :
     ((tableFindingKeys table bulkRules).all fun k => allowedFindingKeys.contains k) = true := by decide +kernel
 
